@@ -90,6 +90,8 @@ func (o Op) String() string {
 		return fmt.Sprintf("openfile(%q,%s,%o)+write(%d %s)+close nowrite=%v", o.A, flagStr(o.Flag), o.Perm, o.Len, o.Dist, o.NoWrite)
 	case "rename", "opmove", "symlink":
 		return fmt.Sprintf("%s(%q,%q)", o.K, o.A, o.B)
+	case "lateattr":
+		return fmt.Sprintf("openfile(%q,%s)+chmod(%o)+chown(%d,%d)+write(%d)+close", o.A, flagStr(o.Flag), o.Perm, o.Uid, o.Gid, o.Len)
 	case "chmod":
 		return fmt.Sprintf("chmod(%q,%o)", o.A, o.Perm)
 	case "chown":
@@ -191,6 +193,34 @@ func execOp(rig *Rig, o Op) Outcome {
 		if err := afero.WriteFile(f, o.A, other, 0o644); err != nil {
 			_ = h.Close()
 			return failOut("otherwrite", err)
+		}
+		c := o.content()
+		n, werr := h.Write(c)
+		if werr == nil && n != len(c) {
+			werr = fmt.Errorf("short write %d of %d", n, len(c))
+		}
+		cerr := h.Close()
+		if werr != nil {
+			return failOut("write", werr)
+		}
+		if cerr != nil {
+			return failOut("close", cerr)
+		}
+	case "lateattr":
+		// a handle is opened; the mode (and, when Uid >= 0, the owner) of the entry is changed; then the handle writes and closes
+		h, err := f.OpenFile(o.A, o.Flag, 0o644)
+		if err != nil {
+			return failOut("open", err)
+		}
+		if err := f.Chmod(o.A, os.FileMode(o.Perm)); err != nil {
+			_ = h.Close()
+			return failOut("chmod", err)
+		}
+		if o.Uid >= 0 {
+			if err := f.Chown(o.A, o.Uid, o.Gid); err != nil {
+				_ = h.Close()
+				return failOut("chown", err)
+			}
 		}
 		c := o.content()
 		n, werr := h.Write(c)
@@ -451,6 +481,24 @@ func applyModel(m *Model, o Op) (MOut, Outcome) {
 		oh := NewMHandle(n, os.O_WRONLY)
 		if r := oh.DoWrite(genContent(o.N, "text", o.DSeed^0x5151)); !r.OK {
 			return fail("write refused"), Outcome{}
+		}
+		if r := h.DoWrite(o.content()); !r.OK {
+			return fail("write refused"), Outcome{}
+		}
+		return ok(), Outcome{}
+	case "lateattr":
+		mo, n := m.Open(o.A, o.Flag, 0o644)
+		if !mo.OK || mo.Amb {
+			return mo, Outcome{}
+		}
+		h := NewMHandle(n, o.Flag)
+		if mo2 := m.Chmod(o.A, o.Perm); !mo2.OK {
+			return mo2, Outcome{}
+		}
+		if o.Uid >= 0 {
+			if mo2 := m.Chown(o.A, o.Uid, o.Gid); !mo2.OK {
+				return mo2, Outcome{}
+			}
 		}
 		if r := h.DoWrite(o.content()); !r.OK {
 			return fail("write refused"), Outcome{}
